@@ -48,6 +48,12 @@ ASSUMPTIONS = [
     "modules smt.veriT.* (shadowed by a PyPI package), app.* (needs flask internals) and prover.auto.auto are not "
     "among the imported modules",
 ]
+# The property text asks for a cycle to be "reported as an error".  After a load_metadata() that already reported
+# the cycle, loading a member of the cycle ends in RecursionError (get_import_order recurses for ever); with the
+# files created after the metadata was read it is KeyError (unknown theory).  Both are errors and no theory is
+# produced, so by default only the class is recorded (notes: cycle-reported-as:*).  Set to True to insist on
+# TheoryException.
+STRICT_CYCLE_CLASS = False
 SHRINK_BUDGET = 8
 SHRINK_SECONDS = 45
 
@@ -491,6 +497,9 @@ def judge(ops, final, res, ref, H, case):
                 H.violation('load:import-cycle-not-reported', case, 'loading a theory on an import cycle returned normally')
             else:
                 H.note('cycle-reported-as:%s' % ev.get('exc'))
+                if STRICT_CYCLE_CLASS and ev.get('exc') not in ('TheoryException', 'KeyError'):
+                    H.violation('load:import-cycle-reported-as:%s' % ev.get('exc'), case,
+                                'loading a theory on an import cycle raised %s instead of TheoryException' % ev.get('exc'))
         elif k == 'load_broken':
             if not sim.broken:
                 raise CaseInvalid('load_broken without the file')
@@ -546,6 +555,7 @@ def run_case(case, H, scratch=None, record=True):
     validate(ops)      # against the simulated file state, before spending a subprocess
     uses_files = any(o[0] in FILE_OPS for o in ops)
 
+    failed = False
     if key in _case_memo:
         res, ref = _case_memo[key]
     else:
@@ -567,15 +577,22 @@ def run_case(case, H, scratch=None, record=True):
             else:
                 res = call_worker({'mode': 'history', 'ops': ops, 'final': final}, REPO)
                 refs = fetch_refs([final]) if res is not None else None
+        except WorkerFailure as e:
+            # the subprocess died without a result (crash of the interpreter, killed): not a verdict on the property
+            H.inconc('worker-failure')
+            H.sample('!worker-failure', {'case': case, 'error': str(e)[-400:]})
+            res = refs = None
+            failed = True
         finally:
             if own is not None:
                 own.close()
         ref = refs[0] if refs else None
-        if len(_case_memo) < 64:
+        if len(_case_memo) < 64 and res is not None and ref is not None:
             _case_memo[key] = (res, ref)
     klass = classify(ops, final)
     if res is None or ref is None:
-        H.inconc('worker-timeout')
+        if not failed:
+            H.inconc('worker-timeout')
         if record:
             H.case(case, False, klass)
         return
@@ -783,7 +800,10 @@ def run_shard(desc, seed, tier, H):
     # one reference process for everything that is judged against the pristine tree
     pristine = [c['final'] for c in cases if not any(o[0] in FILE_OPS for o in c['ops'])]
     if pristine:
-        fetch_refs(pristine)
+        try:
+            fetch_refs(pristine)
+        except WorkerFailure:
+            pass        # every case asks again on its own
     scratch = Scratch()
     try:
         for c in cases:
